@@ -1,2 +1,240 @@
-import FpgoVerif.Model.C11
-/-! Property theorems for C11 (none yet). -/
+import FpgoVerif.Proofs.C11Lemmas
+import FpgoVerif.Gen.C11Skeletons
+/-! Property theorems for C11 — MonadIO is lazy, runs its effect once per evaluation, obeys the monad laws.
+
+    All statements are about the definitions the driver executes (`Model/C11.lean`): `just/new/flatMap/
+    eval/doSubscribe/subscribe/observeOn/subscribeOn/yieldFromIO` mirror monadIO.go closure by closure,
+    `den` is the composition-tree interpreter of the protocol, `run`/`specCase` is the Spec. -/
+namespace FpgoVerif.C11
+
+variable {α : Type}
+
+/-! ### Laziness -/
+
+/-- Building and composing is silent: for EVERY composition tree and from every state, a script of operations
+    that only construct/compose (`b`, ObserveOn `o*`, SubscribeOn `u*`) leaves the world exactly as it was
+    and reports no event.  (In the model the constructors are values — `World` is not an argument of
+    `just/new/flatMap/observeOn/subscribeOn`; that the Go constructors behave like that is carried by the
+    correspondence, which prints the events seen after every such operation, and by `C11_skeleton`: the effect
+    closure is invoked only from `doEffect`, and `doEffect`/`fn` are called only inside closures.) -/
+theorem C11_lazy (ops : List String)
+    (h : ∀ op ∈ ops, parseOp op = some .build ∨ (∃ h, parseOp op = some (.ob h)) ∨ (∃ h, parseOp op = some (.so h))) :
+    ∀ (m : M Nat) (w : World),
+      (foldOps stepOp (m, w) ops).1.2 = w ∧ runOps stepOp (m, w) ops = ops.map (fun _ => "-") := by
+  induction ops with
+  | nil => intro m w; exact ⟨rfl, rfl⟩
+  | cons op ops ih =>
+    intro m w
+    have hop := h op (by simp)
+    have ih' := ih (fun o ho => h o (by simp [ho]))
+    rw [foldOps_cons, runOps_cons]
+    rcases hop with hb | ⟨hh, hb⟩ | ⟨hh, hb⟩ <;>
+      (simp only [stepOp, hb, implOp, List.map_cons]; exact ⟨(ih' _ w).1, by rw [(ih' _ w).2]⟩)
+
+/-- the initial world of every case is empty whatever the tree: construction of `den t 0` contributes nothing -/
+theorem C11_lazy_initial (line : String) (t : Tree) (hp : parseHead (splitCase line).1 = some t) :
+    handle line = " | ".intercalate (runOps stepOp (den t 0, w0) (splitCase line).2) := by
+  simp [handle, hp]
+
+example : runOps stepOp (den (.FL 1 (.N 1) (.N 2)) 0, w0) ["b", "o1", "u2"] = ["-", "-", "-"] := by decide
+example : ∀ op ∈ ["b", "o1", "u2"], parseOp op = some .build ∨ (∃ h, parseOp op = some (.ob h)) ∨ (∃ h, parseOp op = some (.so h)) := by
+  simp [parseOp]
+
+/-! ### Exactly once, in composition order -/
+
+/-- Eval runs the chain exactly once: on any goroutine `g`, from any world, it returns the value the
+    composition denotes and appends precisely the chain `run` lists (each effect and each continuation call
+    once, in composition order, all on `g`); the earlier log is untouched. -/
+theorem C11_once (t : Tree) (v : Nat) (g : Tag) (w : World) :
+    eval (den t v) g w = ((run t v w.log.length).1, w.emits (run t v w.log.length).2 g) :=
+  den_effect t v g w
+
+/-- `run` follows composition order read off the syntax: for a static composition (no data-dependent
+    branch) the chain is the left operand's chain, the continuation, the body's chain — every syntactic
+    effect and continuation exactly once. -/
+theorem C11_once_static (t : Tree) (hs : t.static = true) : ∀ (v n : Nat),
+    (run t v n).2.map Kind.label = labels t := by
+  induction t with
+  | FC c t b1 b2 _ _ _ => simp [Tree.static] at hs
+  | FL c t b iht ihb =>
+    intro v n
+    simp only [Tree.static, Bool.and_eq_true] at hs
+    simp [run, labels, iht hs.1, ihb hs.2, Kind.label]
+  | FR t ih => intro v n; simpa [run, labels] using ih (by simpa [Tree.static] using hs) v n
+  | A x c b ih => intro v n; simp [run, labels, Kind.label, ih (by simpa [Tree.static] using hs)]
+  | O h t ih => intro v n; simpa [run, labels] using ih (by simpa [Tree.static] using hs) v n
+  | S h t ih => intro v n; simpa [run, labels] using ih (by simpa [Tree.static] using hs) v n
+  | J c => intro v n; simp [run, labels]
+  | V a => intro v n; simp [run, labels]
+  | N id => intro v n; simp [run, labels, Kind.label]
+  | W id => intro v n; simp [run, labels, Kind.label]
+  | H id => intro v n; simp [run, labels, Kind.label]
+
+/-- … hence one Eval of a static composition logs, after the old log, exactly the syntactic sequence of its
+    effects/continuations, all on the evaluating goroutine — and `k` Evals log it `k` times (`C11_once`
+    applies from every world). -/
+theorem C11_once_log (t : Tree) (hs : t.static = true) (v : Nat) (g : Tag) (w : World) :
+    ((eval (den t v) g w).2.log.drop w.log.length).map (fun e => (e.kind.label, e.g)) =
+      (labels t).map (fun l => (l, g)) := by
+  rw [C11_once, emits_log, List.drop_left, ← C11_once_static t hs v w.log.length]
+  simp [List.map_map, Function.comp_def]
+
+example : (Tree.FL 1 (.N 1) (.FR (.W 2))).static = true ∧ labels (.FL 1 (.N 1) (.FR (.W 2))) = [.eff 1, .call 1, .eff 2] := by decide
+
+/-! ### Monad laws (equalities of `Tag → World → α × World`) -/
+
+/-- Just(x).FlatMap(f) behaves as f(x) -/
+theorem C11_left_identity (a : α) (f : α → M α) : (flatMap (just a) f).effect = (f a).effect := rfl
+
+/-- m.FlatMap(Just) behaves as m -/
+theorem C11_right_identity (m : M α) : (flatMap m just).effect = m.effect := rfl
+
+/-- FlatMap is associative — here even as an equality of MonadIO values -/
+theorem C11_assoc (m : M α) (f k : α → M α) :
+    flatMap (flatMap m f) k = flatMap m (fun a => flatMap (f a) k) := rfl
+
+/-- the laws as seen by the two consumers: Eval … -/
+theorem C11_laws_eval (a : α) (m : M α) (f k : α → M α) (g : Tag) (w : World) :
+    eval (flatMap (just a) f) g w = eval (f a) g w ∧
+    eval (flatMap m just) g w = eval m g w ∧
+    eval (flatMap (flatMap m f) k) g w = eval (flatMap m (fun a => flatMap (f a) k)) g w :=
+  ⟨rfl, rfl, rfl⟩
+
+/-- … and Subscribe, for every subscription and every nil/non-nil handler pair -/
+theorem C11_laws_subscribe (a : α) (m : M α) (f k : α → M α) (s : Subscription α) (ob sub : Option Tag)
+    (g : Tag) (w : World) :
+    doSubscribe (flatMap (just a) f) s ob sub g w = doSubscribe (f a) s ob sub g w ∧
+    doSubscribe (flatMap m just) s ob sub g w = doSubscribe m s ob sub g w ∧
+    doSubscribe (flatMap (flatMap m f) k) s ob sub g w =
+      doSubscribe (flatMap m (fun a => flatMap (f a) k)) s ob sub g w :=
+  ⟨rfl, rfl, rfl⟩
+
+/-! ### Subscribe: one delivery of Eval's value, on the right goroutines -/
+
+/-- With an OnNext, doSubscribe runs the effect exactly once — on `obOn`'s goroutine (the caller's when nil)
+    — and applies OnNext exactly once, to that value, in the world the effect left — on `subOn`'s goroutine
+    (the effect's goroutine when nil). -/
+theorem C11_subscribe_once (m : M α) (onNext : α → Tag → World → World) (ob sub : Option Tag) (g : Tag)
+    (w : World) :
+    doSubscribe m ⟨some onNext⟩ ob sub g w =
+      onNext (eval m (ob.getD g) w).1 (sub.getD (ob.getD g)) (eval m (ob.getD g) w).2 := by
+  cases ob <;> cases sub <;> rfl
+
+/-- A Subscription without OnNext runs nothing. -/
+theorem C11_subscribe_nil (m : M α) (ob sub : Option Tag) (g : Tag) (w : World) :
+    doSubscribe m ⟨none⟩ ob sub g w = w := rfl
+
+/-- ObserveOn(h1)/SubscribeOn(h2) on a composition, then Subscribe with the logging OnNext: the log grows by
+    the chain — once, in order, every event on h1 (caller if nil) — followed by exactly one delivery of the
+    composition's value on h2 (h1's goroutine if nil). -/
+theorem C11_handlers (t : Tree) (v : Nat) (h1 h2 : Option Tag) (g : Tag) (w : World) :
+    subscribe (subscribeOn (observeOn (den t v) h1) h2) ⟨some logNext⟩ g w =
+      (w.emits (run t v w.log.length).2 (h1.getD g)).emit (.next (run t v w.log.length).1) (h2.getD (h1.getD g)) := by
+  unfold subscribe
+  have : doSubscribe (subscribeOn (observeOn (den t v) h1) h2) ⟨some logNext⟩ h1 h2 g w
+      = doSubscribe (den t v) ⟨some logNext⟩ h1 h2 g w := rfl
+  simp only [subscribeOn, observeOn] at this ⊢
+  rw [this, C11_subscribe_once, C11_once]
+  rfl
+
+example : (subscribe (subscribeOn (observeOn (den (.FL 1 (.N 1) (.V 0)) 0) (some .h1)) (some .h2)) ⟨some logNext⟩ .main w0).log
+    = [⟨.eff 1, .h1⟩, ⟨.call 1 7, .h1⟩, ⟨.next 7, .h2⟩] := by decide
+
+/-- FlatMap does not inherit handlers and Eval ignores them: Eval always runs on the caller. -/
+theorem C11_eval_ignores_handlers (m : M α) (h1 h2 : Option Tag) (g : Tag) (w : World) :
+    eval (subscribeOn (observeOn m h1) h2) g w = eval m g w := rfl
+
+/-- Cor.YieldFromIO returns exactly Eval's value (effect on obOn's goroutine, once) and leaves subOn = nil. -/
+theorem C11_yieldFromIO (m : M Nat) (g : Tag) (w : World) :
+    yieldFromIO m g w =
+      (subscribeOn m none, (eval m (m.obOn.getD g) { w with cell := 0 }).1,
+       { (eval m (m.obOn.getD g) { w with cell := 0 }).2 with cell := (eval m (m.obOn.getD g) { w with cell := 0 }).1 }) := by
+  unfold yieldFromIO subscribe
+  show (_, World.cell (doSubscribe (subscribeOn m none) _ m.obOn none g _), doSubscribe (subscribeOn m none) _ m.obOn none g _) = _
+  rw [C11_subscribe_once]
+  rfl
+
+/-! ### The model the driver runs refines the Spec on every case line -/
+
+/-- For every case line (any tree, any script of Eval / Subscribe / nil-Subscribe / YieldFromIO /
+    ObserveOn / SubscribeOn operations, any number of evaluations), the implementation model prints exactly
+    what the property's statement (`specCase`: chain once per evaluation in composition order, value of the
+    composition, effect on h1's goroutine, delivery on h2's, nothing without OnNext) prescribes. -/
+theorem C11_model_refines_spec (line : String) : handle line = specCase line := by
+  unfold handle specCase
+  cases hp : parseHead (splitCase line).1 with
+  | none => simp [hp]
+  | some t =>
+    simp only [hp]
+    congr 1
+    refine runOps_eq (fun (s : M Nat × World) (st : SpecSt) =>
+      s.1.effect = (den st.t 0).effect ∧ s.1.obOn = st.ob ∧ s.1.subOn = st.sub ∧ s.2.log.length = st.n)
+      stepOp specOp ?_ _ _ _ ⟨rfl, den_obOn t 0, den_subOn t 0, rfl⟩
+    rintro ⟨m, w⟩ ⟨t', ob', sub', n'⟩ op ⟨he, hob, hsub, hn⟩
+    simp only at he hob hsub hn
+    subst hn hob hsub
+    generalize hst : (⟨t', m.obOn, m.subOn, w.log.length⟩ : SpecSt) = st
+    have hob : m.obOn = st.ob := by rw [← hst]
+    have hsub : m.subOn = st.sub := by rw [← hst]
+    have hn : w.log.length = st.n := by rw [← hst]
+    have he : m.effect = (den st.t 0).effect := by rw [← hst]; exact he
+    have hev : ∀ g w', eval m g w' = ((run st.t 0 w'.log.length).1, w'.emits (run st.t 0 w'.log.length).2 g) := by
+      intro g w'; unfold eval doEffect; rw [he]; exact den_effect st.t 0 g w'
+    have hsubs : ∀ w', subscribe m ⟨some logNext⟩ .main w' =
+        (w'.emits (run st.t 0 w'.log.length).2 (st.ob.getD .main)).emit (.next (run st.t 0 w'.log.length).1)
+          (st.sub.getD (st.ob.getD .main)) := by
+      intro w'; unfold subscribe; rw [C11_subscribe_once, hev, hob, hsub]; rfl
+    unfold stepOp specOp
+    cases parseOp op with
+    | none => exact ⟨⟨he, hob, hsub, hn⟩, rfl⟩
+    | some o =>
+      cases o with
+      | build => exact ⟨⟨he, hob, hsub, hn⟩, rfl⟩
+      | ob h => exact ⟨⟨he, rfl, hsub, hn⟩, rfl⟩
+      | so h => exact ⟨⟨he, hob, rfl, hn⟩, rfl⟩
+      | eval =>
+        simp only [implOp, specOp', hev, drop_emits, showEvs_kinds]
+        rw [← hn]
+        exact ⟨⟨he, hob, hsub, by simp⟩, rfl⟩
+      | sub =>
+        simp only [implOp, specOp', hsubs, drop_emits_emit, showEvs_kinds_next]
+        rw [← hn]
+        exact ⟨⟨he, hob, hsub, by simp [Nat.add_assoc]⟩, rfl⟩
+      | subNil =>
+        exact ⟨⟨he, hob, hsub, hn⟩, by simp [implOp, specOp', subscribe, C11_subscribe_nil, showEvs, joinEvs]⟩
+      | yield =>
+        have hev0 := hev (st.ob.getD .main) { w with cell := 0 }
+        have hd := drop_emits { w with cell := 0 } (run st.t 0 w.log.length).2 (st.ob.getD .main)
+        simp only [implOp, specOp', C11_yieldFromIO, hob, hev0]
+        rw [← hn]
+        refine ⟨⟨he, hob, rfl, by simp⟩, ?_⟩
+        show _ ++ toString (showEvs (List.drop w.log.length _)) = _
+        rw [hd, showEvs_kinds]
+
+/-! ### Tie to the source: protocol skeletons regenerated from monadIO.go on every run -/
+
+/-- the shape of monadIO.go the model assumes, as data (`Gen/C11Skeletons.lean`, regenerated by `extract/c11.go`: the shared
+    skeleton grammar with statement-level reads of the handler fields dropped — handing an operand's handlers on to a
+    composed value is neutral for the property) -/
+def expectedSkeletons : List (String × String) := [
+  ("MonadIOJustGenerics", "func{return} return"),
+  ("MonadIONewGenerics", "return"),
+  ("MonadIODef.Just", "call(MonadIOJustGenerics) return"),
+  ("MonadIODef.New", "call(MonadIONewGenerics) return"),
+  ("MonadIODef.FlatMap", "func{call(doEffect) callfn(fn) call(doEffect) return} return"),
+  ("MonadIODef.Eval", "call(doEffect) return"),
+  ("MonadIODef.doEffect", "callfn(effect) return"),
+  ("MonadIODef.ObserveOn", "set(obOn) return"),
+  ("MonadIODef.SubscribeOn", "set(subOn) return"),
+  ("MonadIODef.Subscribe", "set(obOn) set(subOn) call(doSubscribe) return"),
+  ("MonadIODef.doSubscribe", "if[]{func{callfn(OnNext)} func{call(doEffect) set(result) if[]{call(Post)}else{callfn(doSub)}} if[]{call(Post)}else{callfn(doOb)}} return")]
+
+/-- monadIO.go still has the protocol shape the model mirrors: the constructors and FlatMap/ObserveOn/
+    SubscribeOn call neither `effect`, `fn`, `doEffect` nor `OnNext` outside a closure (laziness); the stored
+    effect is invoked only from `doEffect`; FlatMap's closure is doEffect — fn — doEffect (once each, in this
+    order); Eval is one doEffect; doSubscribe guards everything by OnNext ≠ nil, runs doEffect once in `doOb`,
+    hands `doSub` to Post or calls it (once), hands `doOb` to Post or calls it (once). -/
+theorem C11_skeleton : expectedSkeletons.all (fun e => Gen.monadIOSkeletonOf e.1 == some e.2) = true := by
+  decide +kernel
+
+end FpgoVerif.C11
